@@ -173,3 +173,98 @@ func VerifC10_null_count() {
 	verifAssert(BIF_count(arr).AcquireIntValue() == 4, "C10/count-counts-all")
 	verifReach("C10/null-count/end")
 }
+
+// DSL percentile family on collections of n = 0..3 symbolic ints (the empty collection included:
+// a group all of whose values were filtered out): median(c) == percentile(c, 50) ==
+// percentiles(c, [50])'s entry; percentiles answers with ONE ENTRY PER REQUESTED PERCENTILE
+// (array form with "oa", map form otherwise) for every n; for n = 0 every entry is empty (as the
+// stats1 accumulators give for an empty group) and nothing is an error; for n >= 1 every entry is
+// the non-interpolated order statistic sorted[min(int(p/100*n), n-1)] of the definition.
+//verif:opts cap=30000
+func VerifC10_dsl_percentile_family() {
+	n := verifChoice("n", 4)
+	var xs []int64
+	var elems []*mlrval.Mlrval
+	for i := 0; i < n; i++ {
+		x := verifInt64("x")
+		verifAssume(x >= -1000 && x <= 1000)
+		xs = append(xs, x)
+		elems = append(elems, mlrval.FromInt(x))
+	}
+	// sorted copy (definition)
+	sorted := append([]int64{}, xs...)
+	for i := 0; i < len(sorted); i++ {
+		for j := i + 1; j < len(sorted); j++ {
+			if sorted[j] < sorted[i] {
+				sorted[i], sorted[j] = sorted[j], sorted[i]
+			}
+		}
+	}
+	asMap := verifChoice("collection_is_map", 2) == 1
+	var coll *mlrval.Mlrval
+	if asMap {
+		m := mlrval.NewMlrmap()
+		for i, e := range elems {
+			m.PutReference(string(rune('a'+i)), e)
+		}
+		coll = mlrval.FromMap(m)
+	} else {
+		coll = mlrval.FromArray(elems)
+	}
+	pvals := []float64{0, 25, 50, 75, 100}
+	want := func(p float64) (int64, bool) {
+		if n == 0 {
+			return 0, false
+		}
+		idx := int(p / 100 * float64(n))
+		if idx > n-1 {
+			idx = n - 1
+		}
+		return sorted[idx], true
+	}
+	same := func(out *mlrval.Mlrval, p float64, label string) {
+		verifAssert(out != nil && !out.IsError() && !out.IsAbsent(), label+"/not-an-error")
+		if out == nil {
+			return
+		}
+		w, has := want(p)
+		if !has {
+			verifAssert(out.IsVoid(), label+"/empty-collection-gives-empty")
+		} else {
+			verifAssert(out.IsInt() && out.AcquireIntValue() == w, label+"/order-statistic-of-the-definition")
+		}
+	}
+	same(BIF_median(coll), 50, "C10/dsl-pct/median")
+	pi := verifChoice("p", len(pvals))
+	same(BIF_percentile(coll, mlrval.FromFloat(pvals[pi])), pvals[pi], "C10/dsl-pct/percentile")
+	// percentiles with two requested values, array-shaped output
+	qi := verifChoice("q", len(pvals))
+	ps := mlrval.FromArray([]*mlrval.Mlrval{mlrval.FromFloat(pvals[pi]), mlrval.FromFloat(pvals[qi])})
+	opts := mlrval.NewMlrmap()
+	opts.PutReference("oa", mlrval.TRUE)
+	outA := BIF_percentiles_with_options(coll, ps, mlrval.FromMap(opts))
+	verifAssert(outA.IsArray(), "C10/dsl-pct/percentiles-oa-answers-with-an-array-for-every-n")
+	if outA.IsArray() {
+		arr := outA.AcquireArrayValue()
+		verifAssert(len(arr) == 2, "C10/dsl-pct/percentiles-one-entry-per-requested-percentile")
+		if len(arr) == 2 {
+			same(arr[0], pvals[pi], "C10/dsl-pct/percentiles[0]")
+			same(arr[1], pvals[qi], "C10/dsl-pct/percentiles[1]")
+		}
+	}
+	// map-shaped output: one entry per distinct requested percentile
+	outM := BIF_percentiles(coll, ps)
+	verifAssert(outM.IsMap(), "C10/dsl-pct/percentiles-answers-with-a-map-for-every-n")
+	if outM.IsMap() {
+		m := outM.AcquireMapValue()
+		wantN := int64(2)
+		if pi == qi {
+			wantN = 1
+		}
+		verifAssert(m.FieldCount == wantN, "C10/dsl-pct/percentiles-map-one-entry-per-requested-percentile")
+		if m.Head != nil {
+			same(m.Head.Value, pvals[pi], "C10/dsl-pct/percentiles-map-first")
+		}
+	}
+	verifReach("C10/dsl-pct/end")
+}
